@@ -4,6 +4,7 @@ import (
 	"crypto/x509"
 	"fmt"
 	"strings"
+	"sync"
 	"time"
 
 	"github.com/notaryproject/notation-core-go/signature"
@@ -373,7 +374,16 @@ func c07Scenarios(tier mc.Tier) []mc.Scenario {
 	return out
 }
 
+// c07Primed: base header sets whose conformant envelope this process has already verified once.
+var c07Primed sync.Map
+
 func c07Body(c *mc.Ctx, b c07Base, keyName string) {
+	// the conformant envelope of this base is verified once per process before any deviation of it (so also in a replay process)
+	if _, done := c07Primed.LoadOrStore(fmt.Sprintf("%+v/%s", b, keyName), true); !done {
+		if env, _, _, valid := newEnvSpec(b.media, b.content(), keyName).encode(nil, ""); valid {
+			parseVerify(b.media, env)
+		}
+	}
 	var devs []envDev
 	for _, d := range c07Devs {
 		if b.applicable(d) {
